@@ -180,6 +180,12 @@ QueryEndReason(rec) ==
   IN IF \E i \in 1..Len(impl) : \E c \in impl[i].cs : ~Acyclic(c[2])
      THEN {"malformed_constraint"}   \* a reported disequality binds a variable to a term containing it
      ELSE SeqReasons(spec.answers, spec.cut, impl, AnsEquiv, rec)
+          \cup (* user state per branch (C10, C22): the trails carried by the states that reach the end
+                  of the query are those of the reference semantics, as a multiset *)
+               One(IF spec.cut \/ rec.kind # "exhausted" \/ Len(fin) # Len(spec.finals)
+                      \/ BagEquiv([i \in 1..Len(fin) |-> fin[i].u.trail],
+                                  [i \in 1..Len(spec.finals) |-> spec.finals[i].u.trail], =)
+                   THEN "" ELSE "user_trail_differs")
 
 (* end of a solver case: emitted states against the reference semantics *)
 StateEquiv(a, b) ==
